@@ -1530,6 +1530,9 @@ func (ctx Ctx) defineStmt(s *ast.AssignStmt) coq.Binding {
 		ctx.futureWork(s, "multiple defines (split them up)")
 	}
 	rhs := s.Rhs[0]
+	if len(s.Lhs) > 4 {
+		ctx.unsupported(s, "destructuring more than 4 return values")
+	}
 	// TODO: go only requires one of the variables being defined to be fresh;
 	//  the rest are assigned. We should probably support re-assignment
 	//  generally. The problem is re-assigning variables in a loop that were
@@ -1747,6 +1750,9 @@ func (ctx Ctx) multipleAssignStmt(s *ast.AssignStmt) coq.Binding {
 		ctx.unsupported(s, "multiple assignments on right hand side")
 	}
 	rhs := ctx.expr(s.Rhs[0])
+	if len(s.Lhs) > 4 {
+		ctx.unsupported(s, "destructuring more than 4 return values")
+	}
 
 	if s.Tok != token.ASSIGN {
 		// This should be invalid Go syntax anyway
